@@ -423,9 +423,25 @@ def seqset_eq(A, B):
     return all(any(seq_eq(a, b) for b in B) for a in A) and all(any(seq_eq(a, b) for a in A) for b in B)
 
 
+_ONLY = [None]
+
+
+def restricted(ctx, pattern, fns):
+    """Run some of the C13 rules restricted to the types matching `pattern` (used by the properties
+    whose statement includes 'through serialization' for particular objects)."""
+    _ONLY[0] = re.compile(pattern)
+    try:
+        for f in fns:
+            f(ctx)
+    finally:
+        _ONLY[0] = None
+
+
 def serializable_impls(F):
     out = []
     for i in F.impls:
+        if _ONLY[0] is not None and not _ONLY[0].search(norm_ty(i.get('self', ''))):
+            continue
         if i.get('trait') == SERIALIZABLE:
             w, r, ln = F.impl_method(i, 'write'), F.impl_method(i, 'read'), F.impl_method(i, 'length')
             out.append((i, w, r, ln))
@@ -436,7 +452,10 @@ def serializable_impls(F):
 def agree(ctx):
     F = ctx.F
     impls = serializable_impls(F)
-    ctx.floor(len(impls), 24, 'impl Serializable in the crate')
+    if _ONLY[0] is None:
+        ctx.floor(len(impls), 24, 'impl Serializable in the crate')
+    else:
+        ctx.floor(len(impls), 1, 'impl Serializable (restricted)')
     for (i, w, r, ln) in impls:
         name = norm_ty(i['self'])
         if w is None or r is None:
@@ -629,7 +648,46 @@ def fields(ctx):
                 for arg in c.args:
                     if 'c' in arg and 'fn' in arg['c'] and arg['c']['fn']['def'].startswith(adt + '::'):
                         ctors.append((fb, c))
-        if not built and not ctors:
+        # value built by a crate-local constructor function (Self::new(..)): look inside it
+        viactor = []
+        if not built:
+            for fb in F.family(r.key):
+                for c in fb.calls():
+                    cal = lib.local_callee(F, c)
+                    if cal is None or cal.key == r.key or norm_ty(cal.locals[0]['ty']).split('<')[0] != adt:
+                        continue
+                    for bb in sorted(cal.live_blocks()):
+                        for st2 in cal.stmts(bb):
+                            rv2 = st2['rv']
+                            if rv2['k'] == 'agg' and rv2.get('adt') == adt:
+                                viactor.append((fb, c, cal, st2, rv2))
+        for (fb, c, cal, st2, rv2) in viactor:
+            for fname, op in zip(rv2['fields'], rv2['ops']):
+                if (adt, fname) in FIELD_EXCEPTIONS:
+                    continue
+                n += 1
+                srcs = copy_chain_sources(cal, op, through_calls=IDENTITY_CALLS)
+                params = [s[1] for s in srcs if s[0] == 'param']
+                if params and len(params) == len(srcs):
+                    ok = True
+                    for pp in params:
+                        arg = c.args[pp - 1]
+                        calls = lib.deep_calls(F, fb, [arg], follow_mutarg=True)
+                        if not (any(x.is_(r'Deserializer::<?.*read', r'^bytes_de::read_vec$', r'^%s::read$' % SERIALIZABLE) for x in calls)
+                                or control_from_input(F, fb, arg)):
+                            ok = False
+                    ctx.check(ok, name, 'read: field %s <- input (via %s)' % (fname, cal.name),
+                              'field `%s` of the %s built by `read` through %s (line %d) is fed by an argument that does not derive '
+                              'from the deserializer' % (fname, name, cal.name, c.ln), 'argument derives from deserializer reads', c.where())
+                else:
+                    ctx.bad(name, 'read: field %s <- input (via %s)' % (fname, cal.name),
+                            'field `%s` of the %s built by `read` is set by the constructor %s (line %d) to a value that does not come '
+                            'from the wire (%s): the datum is read but does not round-trip' % (
+                                fname, name, cal.name, c.ln, [(s[0], s[1] if s[0] == 'const' else '') for s in srcs][:2]), c.where())
+        if viactor:
+            built = built or [None]
+            built = [x for x in built if x is not None]
+        if not built and not ctors and not viactor:
             calls = lib.deep_calls(F, r, [0], follow_mutarg=True)
             ctx.check(any(c.is_(r'Deserializer::<?.*read', r'^bytes_de::read_vec$') for c in calls), name,
                       'read: value <- input', 'the value returned by `read` of %s does not derive from the deserializer' % name,
@@ -694,7 +752,7 @@ def fields(ctx):
             ctx.check(ok, name, 'read: variant payload <- input',
                       'the payload handed to the %s constructor (line %d) does not derive from the deserializer' % (name, c.ln),
                       'derives from deserializer reads', c.where())
-    ctx.floor(n, 40, 'field obligations')
+    ctx.floor(n, 40 if _ONLY[0] is None else 2, 'field obligations')
 
 
 # ------------------------------------------------------------------ count
@@ -746,7 +804,7 @@ def count(ctx):
                               'write returns less than it wrote' % (fb.var_name(acc) or '_%d' % acc, name,
                                                                      fb.stmts(p.b)[p.i]['ln'] if p.i is not None else 0),
                               'initialised once', fb.where(fb.stmts(p.b)[p.i]['ln'] if p.i is not None else None))
-    ctx.floor(n, 60, 'byte-count obligations')
+    ctx.floor(n, 60 if _ONLY[0] is None else 1, 'byte-count obligations')
 
 
 def count_flows_out(F, body, c):
@@ -788,3 +846,39 @@ def count_flows_out(F, body, c):
         if not grew:
             break
     return 0 in S
+
+
+REORDER = (r'::sort(_unstable)?(_by|_by_key|_by_cached_key)?$', r'^std::iter::Iterator::rev$', r'::reverse$',
+           r'^std::collections::(BTreeMap|BTreeSet|BinaryHeap)::')
+UNORDERED_SRC = (r'^std::collections::(HashMap|HashSet)::<[^>]*>::(iter|keys|values|into_iter|drain)$',
+                 r'^std::iter::IntoIterator::into_iter$')
+
+
+@rule('C13', 'order', configs=('default', 'p256'))
+def order(ctx):
+    """Ordered containers (hierarchies, revision chains, tracers, traps, user-key chains) go on the wire
+    in their own order and come back in wire order: no sorting / reversing in write or read."""
+    F = ctx.F
+    n = 0
+    for (i, w, r, ln) in serializable_impls(F):
+        name = norm_ty(i['self'])
+        for side, root in (('write', w), ('read', r)):
+            if root is None:
+                continue
+            n += 1
+            bad = []
+            for fb in F.family(root.key):
+                for c in fb.calls(*REORDER):
+                    # sorting the entries of an unordered map for determinism is harmless
+                    sl = backward_slice(fb, c.args[:1], follow_mutarg=True)
+                    src_unordered = any(('HashMap' in (x.self_ty or x.full) or 'HashSet' in (x.self_ty or x.full)) and x.is_(r'::(iter|keys|values|into_iter)$')
+                                        for x in sl.calls)
+                    src_ordered = any(x.is_(r'Dict::<K, V>::|LinkedList::<[^>]*>::(iter|into_iter)|RevisionVec|Vec::<[^>]*>::(iter|into_iter)$') for x in sl.calls)
+                    if src_unordered and not src_ordered:
+                        continue
+                    bad.append(c)
+            ctx.check(not bad, name, '%s keeps container order' % side,
+                      '%s of %s reorders the elements it serialises (%s, line %d): ordered containers (hierarchy ranks, revision '
+                      'chains) no longer round-trip' % (side, name, bad[0].name if bad else '', bad[0].ln if bad else 0),
+                      'no sort / rev', root.where())
+    ctx.floor(n, 40 if _ONLY[0] is None else 2, 'write / read bodies')
